@@ -29,13 +29,20 @@ func TestSmoke(t *testing.T) {
 	if r.Err != nil {
 		t.Fatal(r.Err)
 	}
+	votes, fin := 0, Line{}
 	for _, l := range r.Lines {
-		if l.K == "iter" {
-			t.Logf("iter %s b=%d budget=%d crash=%v: pre=%s\n   s1=%s\n   s2=%s\n   s3=%s\n   sent=%s others=%v err=%q panic=%q", l.A, l.B, l.Budget, l.Crash,
-				sm.Canon(l.Pre), sm.Canon(l.S1), sm.Canon(l.S2), sm.Canon(l.S3), sm.Canon(l.Sent), l.Others, l.Err, l.Panic)
-		} else {
-			t.Logf("%s b=%d h=%d evs=%s started=%v configs=%s", l.K, l.B, l.H, sm.Canon(l.Evs), l.Started, sm.Canon(l.Configs))
+		if l.K == "iter" && len(l.S2.Outbox) > len(l.S1.Outbox) {
+			votes++
 		}
+		if l.K == "fin" {
+			fin = l
+		}
+		if l.Err != "" || l.Panic != "" {
+			t.Errorf("%s %s: err=%q panic=%q", l.K, l.A, l.Err, l.Panic)
+		}
+	}
+	if votes == 0 || len(fin.Configs) != 2 || !fin.Configs[1].Started {
+		t.Fatalf("the run did not end with config 1 accepted and started: %s", sm.Canon(fin.Configs))
 	}
 	if os.Getenv("GOV_TEST_TLC") == "" {
 		return
